@@ -23,3 +23,7 @@ def run(res, programs, tier):
     intalg.r_sign_tables(res, programs, "R01.3", intalg.OPS)
     from . import c19
     c19.shared_r19_2(res, programs)
+
+
+LEVEL = LEVEL + ' Also (R19.2, shared) no arithmetic step of the integer kernels sits inside a debug assertion.'
+TECHNIQUE = 'static analysis of MIR: path-sensitive use-of-result rule (carry/borrow consumed on every path), abstract evaluation of dispatcher and estimator bodies over all length classes, finite sign tables (FDT), debug-region effect analysis'
